@@ -4,6 +4,7 @@ import (
 	"errors"
 	"io"
 	"os"
+	"reflect"
 	"testing"
 )
 
@@ -128,10 +129,21 @@ func (s *dualWriter) Remove(w io.Writer) {
 // sameWriter reports whether the list member x is the writer w that was
 // passed to Add/Set, either as is or wrapped by logwr.
 func sameWriter(x LogWriter, w io.Writer) bool {
-	if xl, ok := x.(*logwr); ok && xl.Writer == w {
+	if xl, ok := x.(*logwr); ok && sameValue(xl.Writer, w) {
 		return true
 	}
-	return x == w
+	return sameValue(x, w)
+}
+
+// sameValue is a == b for values that can be compared; a writer of
+// a type that cannot (a func adapter, a struct holding a slice) has
+// no identity, and == would panic on two of them.
+func sameValue(a, b any) bool {
+	ta, tb := reflect.TypeOf(a), reflect.TypeOf(b)
+	if ta != tb || (ta != nil && !ta.Comparable()) {
+		return false
+	}
+	return a == b
 }
 
 func (s *dualWriter) AddErrorWriter(w io.Writer) {
